@@ -35,6 +35,31 @@ def step_fn(kind, form, max_extra, inner_depth, with_reentry=False):
     def _mark(op, lhs, rhs):
         return MARK
 
+    MARKN = Number(888.0)
+
+    @user_partial.register(Number, float, str)
+    def _mark_number(data, dtype):       # a rule keyed on the ground class Number: constants are interpreted too
+        return MARKN if data == 777.0 else None
+
+    import numpy as _np
+    from funsor import Bint as _Bint
+    from funsor.tensor import Tensor as _Tensor
+    TSUB = _Tensor(_np.array([10.0, 20.0, 30.0]), {"i": _Bint[3]})
+    IDX_BAD = _Tensor(_np.array([0, 7]), {"j": _Bint[2]}, 3)          # 7 is out of range: numpy raises inside eager_subs
+    IDX_GOOD = _Tensor(_np.array([2, 0]), {"j": _Bint[2]}, 3)
+
+    def failing_substitution():
+        """a user error raised in the middle of a substitution and caught by the user must not disturb the stack"""
+        before = list(IP._STACK)
+        try:
+            TSUB(i=IDX_BAD)
+        except IndexError:
+            pass
+        after = list(IP._STACK)
+        if not (len(before) == len(after) and all(a is b for a, b in zip(before, after))):
+            raise AssertionError("a substitution that raised (and was caught) left the stack changed: %s -> %s" % (before, after))
+        TSUB(i=IDX_GOOD)
+
     user_partial2 = DispatchedInterpretation("user_partial2")
     MARK2 = Number(54321.0)
 
@@ -86,7 +111,10 @@ def step_fn(kind, form, max_extra, inner_depth, with_reentry=False):
                     got = Variable("x", Real) - Number(1.0)
                     if got is not (MARK if k == "user_partial" else MARK2):
                         raise AssertionError("nested: the innermost partial interpretation %s did not interpret its pattern (got %r)" % (k, got))
+                if k == "user_partial" and Number(777.0) is not MARKN:
+                    raise AssertionError("nested: the partial interpretation's rule on Number constants did not run")
                 (Variable("x", Real) + 1)(x=2.0)        # substitute() pushes and pops a temporary interpretation
+                failing_substitution()
                 nested(depth - 1)
                 if r == 0:
                     raise Boom()
@@ -136,6 +164,8 @@ def step_fn(kind, form, max_extra, inner_depth, with_reentry=False):
                     if pos == 0:
                         nested(inner_depth)
                     if pos == 1:
+                        failing_substitution()
+                        seen["probe_num"] = Number(777.0)
                         seen["probe_add"] = Variable("x", Real) + Number(1.0)
                         seen["probe_sub"] = Variable("x", Real) - Number(1.0)
                         seen["top_after_nested"] = IP.get_interpretation()
@@ -181,6 +211,8 @@ def step_fn(kind, form, max_extra, inner_depth, with_reentry=False):
                 if kind in ("user_partial", "user_partial2"):
                     if ps is not (MARK if kind == "user_partial" else MARK2):
                         res.update(ok=False, why="user partial interpretation's rule did not run for its pattern")
+                    if kind == "user_partial" and seen.get("probe_num") is not MARKN:
+                        res.update(ok=False, why="user partial interpretation's rule on Number constants did not run (got %r)" % (seen.get("probe_num"),))
                 if res["ok"] and kind != "normalize" and enclosing != "normalize":
                     is_lazy = type(pa).__name__.startswith("Binary")
                     if lazy_like != is_lazy:
